@@ -431,6 +431,8 @@ func (s *stepper) writeCall(c *call) error {
 		sc.Init = replay.Str(a, "init")
 		sc.Hdr = replay.Bool(a, "hdr")
 		sc.Turns = strs(replay.List(a, "turns"))
+		// one stream in three runs on a state type that implements both stream interfaces
+		sc.Dual = c.x%3 == 0
 		if replay.Str(a, "pm") == "mismatch" {
 			schema = arrow.NewSchema([]arrow.Field{{Name: "script", Type: arrow.PrimitiveTypes.Int64}}, nil)
 			cols = []arrow.Array{i64Col(1)}
